@@ -88,6 +88,7 @@ fn hist(ops: &[&str]) -> String {
         if f[2] != "-" {
             msg.dynheader.serial = NonZeroU32::new(f[2].parse().unwrap());
         }
+        let mut ctx_serial: Option<NonZeroU32> = None;
         let reported = if f[4] == "W" {
             conn.send.send_message_write_all(&msg).ok()
         } else {
@@ -96,7 +97,7 @@ fn hist(ops: &[&str]) -> String {
                     let s = ctx.serial();
                     match ctx.write_all() {
                         Ok(s2) => {
-                            assert!(s == s2);
+                            ctx_serial = Some(s);
                             Some(s2)
                         }
                         Err((ctx, _)) => {
@@ -111,7 +112,13 @@ fn hist(ops: &[&str]) -> String {
         match reported {
             Some(s) => {
                 let bytes = read_message(&mut peer);
-                out.push(format!("s:{}:{}:{}", s.get(), u32_at(&bytes, 8, bytes[0]), bytes[0] as char));
+                let mut t = format!("s:{}:{}:{}", s.get(), u32_at(&bytes, 8, bytes[0]), bytes[0] as char);
+                if let Some(c) = ctx_serial {
+                    if c != s {
+                        t.push_str(&format!(":ctx{}", c.get()));
+                    }
+                }
+                out.push(t);
             }
             None => out.push("e".to_string()),
         }
